@@ -805,9 +805,11 @@ impl W2State {
             println!("      [c11 before {}: {:?}]", frame.short(), self.c11);
         }
         self.c11.awaiting_reply = frame.is_request() && frame.req_expects_reply();
-        if self.c11.awaiting_reply {
-            // the first telegram in the receive buffer is consumed as (or instead of) the reply
-            self.c11.stale_pending = self.c11.stale_pending.saturating_sub(1);
+        if self.c11.awaiting_reply && self.c11.stale_pending > 0 {
+            // the first telegram waiting in the receive buffer is consumed as (or instead of) the reply: the
+            // station is not going to read what is delivered next
+            self.c11.stale_pending -= 1;
+            self.c11.awaiting_reply = false;
         }
         // a telegram whose first byte was not complete when the station started cannot have been noticed
         let silence = if self.c11.last_activity_start + 11 * BIT > tx.start { tx.start - self.c11.prev_activity_end } else { tx.start - self.c11.last_activity_end };
@@ -921,7 +923,10 @@ impl W2State {
                     // the station as undecodable bytes after its pass ("something was heard")
                     // … and so does a telegram that was delivered while the station was not reading: it is
                     // processed right after this pass
-                    let fuzzy = (matches!(self.c11.pass, Some((_, 255, _, _))) && !was_holder) || tx.overlaps_prev || self.c11.stale_pending > 0;
+                    // (the precise form of the same thing: bytes that are still unread in the station's receive
+                    // buffer when it transmits the pass)
+                    let unread = self.bus.pending(0, self.now) > 0;
+                    let fuzzy = (matches!(self.c11.pass, Some((_, 255, _, _))) && !was_holder) || tx.overlaps_prev || self.c11.stale_pending > 0 || unread;
                     self.c11.stale_pending = 0;
                     self.c11.pass = Some((da, if fuzzy { 255 } else { 1 }, tx.end, false));
                     self.c11.heard_from_successor = None;
